@@ -20,7 +20,7 @@ From Coq.Strings Require Import Byte.
 Require Import GV.Base.Res GV.Base.Byt GV.Base.Ints GV.Model.Leb GV.Model.Prim.
 Require Import GV.Spec.OpEncSpec GV.Model.OpWr.
 Require Import GV.Proofs.OpWrProofs GV.Proofs.OpWrDec GV.Proofs.OpWrTotal.
-Require GV.Model.OpDec GV.Model.OpEval GV.Proofs.OpRoundtrip.
+Require GV.Model.OpDec GV.Model.OpVal GV.Model.OpEval GV.Spec.StackSpec GV.Proofs.OpRoundtrip GV.Proofs.OpEvalSim GV.Proofs.OpParseWf GV.Proofs.OpEvalSame.
 Import ListNotations.
 Local Open Scope N_scope.
 
@@ -356,3 +356,62 @@ Example ex1_by_reader :
   ([OpDec.OUnsignedConstant 5; OpDec.OSkip 9; OpDec.ORegisterOffset 40 (-8) 0; OpDec.OEntryValue [x55; x28; xfc; xff];
     OpDec.OPick 2; OpDec.ODeref 14 4 false], None).
 Proof. vm_compute. reflexivity. Qed.
+
+(* The evaluator model does not see the layout of a program: two bytecodes P1, P2 that decode, at corresponding
+   boundaries `pts`, to the same operations with Skip/Bra displacements reaching corresponding boundaries
+   (OpEvalSim.layout_ok) give the same conversation: same requests, same final pieces / value / counters or the
+   same error, for every fops, fuel, build mode, configuration (with that encoding) and answer list. *)
+Theorem eval_layout_independent : forall (F : OpVal.fops) (e' : OpDec.enc) (P1 P2 : list byte) (pts : list (nat * nat)),
+  OpEvalSim.layout_ok e' P1 P2 pts ->
+  forall fuel dbg c answers, OpEval.c_enc c = e' ->
+    OpEval.run F fuel dbg c P1 answers = OpEval.run F fuel dbg c P2 answers.
+Proof. exact OpEvalSim.run_layout_independent. Qed.
+
+(* (c) eval_same: for every expression decode_written covers, evaluating the bytes write::Expression emitted gives
+   the same conversation as evaluating the canonical encoding (StackSpec.enc_op: DWARF 5 opcodes, constu/regx/bregx/
+   pick/deref_size instead of the short forms, minimal LEB128) of the operations the reader sees in them, with every
+   branch re-aimed at the canonical encoding's own boundary of the same target operation (OpEvalSame.canon_ops).
+   The only side conditions left concern the canonical program and are decidable per instance: canon_ops succeeds
+   (every branch reaches a boundary — true by branches_land — and the re-computed displacements still fit i16, which
+   the longer canonical forms can break) and it is shorter than 2^63 bytes. Its operations are automatically values
+   of gimli's Operation type (OpParseWf.parse_wf: whatever the reader decodes is StackSpec.wf_op, every opcode). *)
+Theorem eval_same : forall dbg0 e uo refs base ex bs fx,
+  wf_enc e = true ->
+  forallb wf_op ex = true -> wf_uoffs uo = true -> forallb decodable ex = true ->
+  base + blen bs < 2 ^ 63 ->
+  write_expr dbg0 e uo refs base ex = Ok (bs, fx) ->
+  exists dl ros1,
+    decode (dcfg_of e) bs = Some dl /\
+    OpDec.operations true (OpRoundtrip.renc (dcfg_of e)) bs = (ros1, None) /\
+    map (fun x => OpRoundtrip.tr (snd x)) dl = map Some ros1 /\
+    forall ops2,
+      OpEvalSame.canon_ops (OpRoundtrip.renc (dcfg_of e)) dl bs ros1 = Some ops2 ->
+      N.of_nat (length (OpEvalSame.canon_bytes (OpRoundtrip.renc (dcfg_of e)) ops2)) < 2 ^ 63 ->
+      forall F fuel dbg c answers, OpEval.c_enc c = OpRoundtrip.renc (dcfg_of e) ->
+        OpEval.run F fuel dbg c bs answers =
+        OpEval.run F fuel dbg c (OpEvalSame.canon_bytes (OpRoundtrip.renc (dcfg_of e)) ops2) answers.
+Proof. exact OpEvalSame.eval_same_final. Qed.
+
+(* Whatever the reader model decodes is a value of gimli's Operation type (field widths, registers below 2^16, piece
+   sizes whole bytes, ...) — every opcode; so StackSpec.decode_roundtrip applies to every decoded operation. *)
+Theorem reader_output_wf : forall dbg e' bs o r,
+  OpDec.e_asz e' < 256 -> OpDec.parse_op dbg e' bs = Ok (o, r) -> StackSpec.wf_op e' o.
+Proof. exact OpParseWf.parse_wf. Qed.
+
+(* ex1: its canonical re-encoding exists (skip +9 stays +9: 5+9 = 14 = canonical start of pick), is well-formed,
+   and is a different byte string *)
+Definition ex1_bytes : list byte := [x35; x2f; x09; x00; x92; x28; x78; xf3; x04; x55; x28; xfc; xff; x15; x02; xf6; x04; x0e].
+Definition ex1_ros : list OpDec.operation :=
+  [OpDec.OUnsignedConstant 5; OpDec.OSkip 9; OpDec.ORegisterOffset 40 (-8) 0; OpDec.OEntryValue [x55; x28; xfc; xff];
+   OpDec.OPick 2; OpDec.ODeref 14 4 false].
+Example ex1_canon :
+  OpEvalSame.canon_ops (OpRoundtrip.renc (dcfg_of enc4))
+    [(0, DoUConst 5); (1, DoSkip 9); (4, DoRegOffset 40 (-8) 0); (7, DoEntryValue [x55; x28; xfc; xff]);
+     (13, DoPick 2); (15, DoDeref 14 4 false)] ex1_bytes ex1_ros = Some ex1_ros /\
+  OpEvalSame.canon_bytes (OpRoundtrip.renc (dcfg_of enc4)) ex1_ros =
+    [x10; x05; x2f; x09; x00; x92; x28; x78; xa3; x04; x55; x28; xfc; xff; x15; x02; xa6; x04; x0e] /\
+  Forall (StackSpec.wf_op (OpRoundtrip.renc (dcfg_of enc4))) ex1_ros.
+Proof.
+  split; [vm_compute; reflexivity|]. split; [vm_compute; reflexivity|].
+  repeat constructor; try (vm_compute; reflexivity); try (intros H; now elim H).
+Qed.
